@@ -29,6 +29,7 @@ Leaves == {Lit(0), Lit(1), Lit(2), Lit(7), Var("a"), Var("b"),
            Arr("arr", Lit(0)), Arr("arr", Lit(1)), Arr("arr", Lit(5))}
 D1 == {Bin(o, x, y) : o \in BinOps, x \in Leaves, y \in Leaves} \cup {Un(o, x) : o \in UnOps, x \in Leaves}
           \cup {Arr("arr", Bin("+", x, y)) : x \in {Lit(0), Lit(1), Var("a")}, y \in {Lit(0), Lit(1)}}
+          \cup {Arr("arr", Bin("-", x, y)) : x \in {Lit(0), Lit(1)}, y \in {Lit(1), Lit(2)}}      \* negative indices
 \* partition of D1 for sharding / sampling the depth-2 family: inner expressions number j with j % ModN = ModK
 D1Seq == SetToSeq(D1)
 D1Part == {D1Seq[j] : j \in {i \in 1..Len(D1Seq) : i % ModN = ModK}}
